@@ -26,3 +26,19 @@ Definition handler_ok (x : string * string * string * string * string) : bool :=
   (if String.eqb c "FINALLY" then in_str action ["loader.dispose"; "dumper.dispose"]
    else if String.eqb action "SWALLOW" then swallow_ok m f c guarded
    else in_str action ["ConstructorError"; "ReaderError"; "ScannerError"]).
+
+(* the complete list of (module, function, caught class, action) of the pinned tree: a NEW try/except anywhere in lib/yaml is an obligation to look at *)
+Definition expected_handlers : list (string * string * string * string) :=
+  [("__init__", "scan", "FINALLY", "loader.dispose"); ("__init__", "parse", "FINALLY", "loader.dispose"); ("__init__", "compose", "FINALLY", "loader.dispose");
+   ("__init__", "compose_all", "FINALLY", "loader.dispose"); ("__init__", "load", "FINALLY", "loader.dispose"); ("__init__", "load_all", "FINALLY", "loader.dispose");
+   ("__init__", "emit", "FINALLY", "dumper.dispose"); ("__init__", "serialize_all", "FINALLY", "dumper.dispose"); ("__init__", "dump_all", "FINALLY", "dumper.dispose");
+   ("constructor", "construct_yaml_binary", "UnicodeEncodeError", "ConstructorError"); ("constructor", "construct_yaml_binary", "binascii.Error", "ConstructorError");
+   ("constructor", "construct_python_bytes", "UnicodeEncodeError", "ConstructorError"); ("constructor", "construct_python_bytes", "binascii.Error", "ConstructorError");
+   ("constructor", "find_python_module", "ImportError", "ConstructorError"); ("constructor", "find_python_name", "ImportError", "ConstructorError");
+   ("reader", "peek", "IndexError", "SWALLOW"); ("reader", "update", "UnicodeDecodeError", "ReaderError");
+   ("representer", "represent_mapping", "TypeError", "SWALLOW"); ("scanner", "scan_uri_escapes", "UnicodeDecodeError", "ScannerError")].
+Fixpoint handlers_eqb (a : list (string * string * string * string * string)) (b : list (string * string * string * string)) : bool :=
+  match a, b with
+  | [], [] => true
+  | (a1, a2, a3, a4, _) :: a', (b1, b2, b3, b4) :: b' => String.eqb a1 b1 && String.eqb a2 b2 && String.eqb a3 b3 && String.eqb a4 b4 && handlers_eqb a' b'
+  | _, _ => false end.
